@@ -7,6 +7,7 @@ save_checkpoint) and thin subclasses of TournamentSelection / Mutations that log
 from __future__ import annotations
 
 import contextlib
+import copy
 import io
 import os
 import random
@@ -79,6 +80,30 @@ def tour_eval_loop(case):
     return int(case.get("tour_eval_loop", e if e <= 2 else 1))
 
 
+def _same(a, b):
+    """deep equality of plain containers / arrays"""
+    if isinstance(a, dict):
+        return isinstance(b, dict) and list(a.keys()) == list(b.keys()) and all(_same(a[k], b[k]) for k in a)
+    if isinstance(a, (list, tuple)):
+        return type(a) is type(b) and len(a) == len(b) and all(_same(x, y) for x, y in zip(a, b))
+    if isinstance(a, np.ndarray):
+        return isinstance(b, np.ndarray) and a.dtype == b.dtype and a.shape == b.shape and bool(np.array_equal(a, b))
+    return type(a) is type(b) and a == b
+
+
+def _create(kw, algo, ospace, aspace, net, hp, hpc, npop, num_envs):
+    """create_population; the caller's net_config and INIT_HP dictionaries must come back as they were handed over"""
+    from agilerl.utils.utils import create_population
+    net0, hp0 = copy.deepcopy(net), copy.deepcopy(hp)
+    pop = create_population(algo, ospace, aspace, net, hp, hp_config=hpc, population_size=npop, num_envs=num_envs)
+    ch = kw.setdefault("_args_changed", [])
+    if not _same(net, net0):
+        ch.append(f"create_population:net_config {net0} -> {net}")
+    if not _same(hp, hp0):
+        ch.append("create_population:INIT_HP")
+    return pop
+
+
 def build(case, log, ckdir):
     """environment, population, memory and the keyword arguments of the training function"""
     from gymnasium import spaces
@@ -104,11 +129,12 @@ def build(case, log, ckdir):
     if loop in ("off", "on", "offline"):
         img = bool(case.get("image"))
         dob = bool(case.get("dictobs"))
-        env = (E.CountVecEnv(log, ne, case["ep_len"], act, image=img, dictobs=dob) if ne > 0
-               else E.CountEnv(log, case["ep_len"], act, image=img, dictobs=dob))
+        mx_ = bool(case.get("mixed"))
+        env = (E.CountVecEnv(log, ne, case["ep_len"], act, image=img, dictobs=dob, mixed=mx_) if ne > 0
+               else E.CountEnv(log, case["ep_len"], act, image=img, dictobs=dob, mixed=mx_))
         ospace = env.single_observation_space if ne > 0 else env.observation_space
         aspace = env.single_action_space if ne > 0 else env.action_space
-        net = dict(NET)
+        net = copy.deepcopy(NET)
         if img:     # the agents see channels-first images; the loop converts with swap_channels=True
             ospace = spaces.Box(-1.0, 1.0, (E.IMG[2], E.IMG[0], E.IMG[1]), np.float32)
             net = {"encoder_config": {"channel_size": [3], "kernel_size": [3], "stride_size": [1]},
@@ -116,13 +142,12 @@ def build(case, log, ckdir):
             kw["swap_channels"] = True
         if dob:
             net = None           # default multi-input encoder
-        pop = create_population(algo, ospace, aspace, net, hp, hp_config=hpc, population_size=npop,
-                                num_envs=max(ne, 1))
+        pop = _create(kw, algo, ospace, aspace, net, hp, hpc, npop, max(ne, 1))
     elif loop == "bandit":
         env = E.CountBanditEnv(log, arms=3, dim=2)
         ospace = spaces.Box(-10.0, 10.0, env.context_dim, np.float32)
         aspace = spaces.Discrete(env.arms)
-        pop = create_population(algo, ospace, aspace, dict(NET), hp, hp_config=hpc, population_size=npop)
+        pop = _create(kw, algo, ospace, aspace, copy.deepcopy(NET), hp, hpc, npop, 1)
     else:
         ids = ["a_0", "a_1"] if not case.get("grouped") else ["a_0", "a_1", "b_0"]
         if case.get("ids") == "unsorted":      # caller-provided order that is neither sorted nor grouped
@@ -136,8 +161,7 @@ def build(case, log, ckdir):
         hp["AGENT_IDS"] = ids
         ospaces = [env._os[a] for a in ids]
         aspaces = [env._as[a] for a in ids]
-        pop = create_population(algo, ospaces, aspaces, dict(NET), hp, hp_config=hpc, population_size=npop,
-                                num_envs=max(ne, 1))
+        pop = _create(kw, algo, ospaces, aspaces, copy.deepcopy(NET), hp, hpc, npop, max(ne, 1))
     memory = None
     if loop in ("off", "offline", "bandit"):
         cap = case.get("mem_cap", 64)
@@ -270,7 +294,10 @@ def run_loop(case, build_dir: Path, guard_s=60):
                             [fingerprint(a) for a in new], [str(a.mut) for a in new]))
                 return new
 
+        built_changed = kw.pop("_args_changed", [])
         tkw = dict(kw)
+        tkw["INIT_HP"] = {"BATCH_SIZE": case["batch_size"], "LEARN_STEP": case["learn_step"], "NESTED": {"a": [1, 2]}}
+        tkw["MUT_P"] = {"NO_MUT": 0.2, "RL_HP_MUT": 0.8, "LIST": [0.1, 0.2]}
         if case.get("evo"):
             tkw["tournament"] = Tour(case.get("tsize", 2), bool(case.get("elitism", True)),
                                      case.get("tour_pop", len(pop)), tour_eval_loop(case))
@@ -332,6 +359,10 @@ def run_loop(case, build_dir: Path, guard_s=60):
             off = len(log)
             args["pop"] = cur_pop
             args["max_steps"] = int(budget)
+            # what the caller hands over must not be written into: its population list, the dictionaries, the dataset arrays
+            given = list(cur_pop)
+            before = {k: copy.deepcopy(args[k]) for k in ("INIT_HP", "MUT_P", "dataset") if k in args}
+            mdef = repr(Mutations.__init__.__defaults__)
             # guard on the CPU time of this process (not wall clock: a loaded machine must not produce a false alarm)
             old = signal.signal(signal.SIGPROF, _alarm)
             signal.setitimer(signal.ITIMER_PROF, float(guard_s))
@@ -346,6 +377,16 @@ def run_loop(case, build_dir: Path, guard_s=60):
                 seg["log"] = log[off:]
                 raise
             seg["completed"] = True
+            ch = list(built_changed) if bi == 0 else []
+            if len(cur_pop) != len(given) or any(a is not b for a, b in zip(cur_pop, given)):
+                ch.append(f"pop list: {len(given)} agents handed over, the caller's list now holds {len(cur_pop)} "
+                          f"({sum(1 for a in cur_pop if not any(a is b for b in given))} of them other objects)")
+            for k, v in before.items():
+                if not _same(args[k], v):
+                    ch.append(k)
+            if repr(Mutations.__init__.__defaults__) != mdef:
+                ch.append("Mutations.__init__ default arguments")
+            seg["args_changed"] = ch
             seg["final"] = [snap(a, eval_loop) for a in ret_pop]
             seg["final_fp"] = [fingerprint(a) for a in ret_pop]
             seg["ret_fit_rows"] = [(len(r) if isinstance(r, (list, tuple)) else -1) for r in ret_fit]
